@@ -164,16 +164,45 @@ fn ask(w: &mut W, dir: &Path) -> Value {
         *w = spawn_worker();
         return json!({"status": "crash", "msg": "worker died before the request"});
     }
+    // watchdog: a generator that does not answer within ASK_LIMIT is killed ("loops forever" is an outcome the
+    // statement names; a blocked read would turn it into a hung check instead of a verdict)
+    let done = std::sync::Arc::new(std::sync::atomic::AtomicBool::new(false));
+    let timed_out = std::sync::Arc::new(std::sync::atomic::AtomicBool::new(false));
+    let pid = w.child.id();
+    let (d2, t2) = (done.clone(), timed_out.clone());
+    let dog = std::thread::spawn(move || {
+        let t0 = std::time::Instant::now();
+        while !d2.load(std::sync::atomic::Ordering::SeqCst) {
+            let left = ASK_LIMIT.saturating_sub(t0.elapsed());
+            if left.is_zero() {
+                t2.store(true, std::sync::atomic::Ordering::SeqCst);
+                let _ = Command::new("kill").arg("-9").arg(pid.to_string()).status();
+                return;
+            }
+            std::thread::park_timeout(left);
+        }
+    });
     let mut line = String::new();
-    match w.stdout.read_line(&mut line) {
+    let read = w.stdout.read_line(&mut line);
+    done.store(true, std::sync::atomic::Ordering::SeqCst);
+    dog.thread().unpark();
+    let _ = dog.join();
+    match read {
         Ok(n) if n > 0 => serde_json::from_str(&line).unwrap_or(json!({"status": "crash", "msg": format!("unparsable answer {line:?}")})),
         _ => {
             let status = w.child.wait().map(|s| s.to_string()).unwrap_or_default();
             *w = spawn_worker();
-            json!({"status": "crash", "msg": format!("generator process died: {status}")})
+            if timed_out.load(std::sync::atomic::Ordering::SeqCst) {
+                json!({"status": "timeout", "msg": format!("the generator did not answer within {} s and was killed", ASK_LIMIT.as_secs())})
+            } else {
+                json!({"status": "crash", "msg": format!("generator process died: {status}")})
+            }
         }
     }
 }
+
+/// (code generation of these projects takes milliseconds)
+const ASK_LIMIT: std::time::Duration = std::time::Duration::from_secs(30);
 
 fn scratch(tag: &str) -> PathBuf {
     let base = if Path::new("/dev/shm").is_dir() { PathBuf::from("/dev/shm") } else { vmodel::report::verif_root().join("work/tmp") };
@@ -327,11 +356,61 @@ fn c09(tier: Tier) -> i32 {
         },
         &root,
     );
+    // ---- every `inherits` map over three non-default locales (each inherits from nobody or from any other locale,
+    // the default too: chains, loops, loops entered from outside) x which of them define the second key: the
+    // generator answers - a result or an error - within the watchdog
+    {
+        let others = ["de", "fr", "it"];
+        let targets = ["-", "en", "de", "fr", "it"];
+        let mut maps: Vec<Vec<(&str, &str)>> = vec![];
+        for a in targets {
+            for b in targets {
+                for c in targets {
+                    let m: Vec<(&str, &str)> = [("de", a), ("fr", b), ("it", c)].into_iter().filter(|(l, t)| *t != "-" && l != t).collect();
+                    if [("de", a), ("fr", b), ("it", c)].iter().any(|(l, t)| l == t) {
+                        continue;
+                    }
+                    maps.push(m);
+                }
+            }
+        }
+        let n_def = 1usize << others.len();
+        pool_for(
+            maps.len() * n_def,
+            |w, i, dir| {
+                let m = &maps[i / n_def];
+                let defined = i % n_def;
+                let mut p = Project::new(Config::simple("en", &["en", "de", "fr", "it"]).with_inherits(m));
+                p.set_file(None, "en", vec![("greeting".into(), st("[en.greeting]")), ("only".into(), s(vec![text("[en.only]"), var("x")]))]);
+                for (k, l) in others.iter().enumerate() {
+                    let mut e = vec![("greeting".to_string(), st(&format!("[{l}.greeting]")))];
+                    if defined >> k & 1 == 1 {
+                        e.push(("only".to_string(), st(&format!("[{l}.only]"))));
+                    }
+                    p.set_file(None, l, e);
+                }
+                p.materialise(dir, JSON).unwrap();
+                let v = ask(w, dir);
+                rep.eval(1);
+                let status = v["status"].as_str().unwrap_or("?").to_string();
+                match status.as_str() {
+                    "ok" if v["syn_ok"] == true => {}
+                    "err" if !v["msg"].as_str().unwrap_or("").trim().is_empty() => {}
+                    _ => rep.violation(
+                        format!("C09/L2: code generation under inherits {m:?} (second key defined by {:?}): {status}: {}", others.iter().enumerate().filter(|(k, _)| defined >> k & 1 == 1).map(|(_, l)| *l).collect::<Vec<_>>(), vmodel::report::truncate(&v["msg"].as_str().unwrap_or("").replace('\n', " "), 300)),
+                        json!({"inherits": format!("{m:?}"), "answer": v}),
+                    ),
+                }
+                *classes.lock().unwrap().entry(format!("inherits/{status}")).or_insert(0) += 1;
+            },
+            &root,
+        );
+    }
     rep.nontriv(classes.lock().unwrap().len() as u64 * 10);
     rep.sample(json!({"value_of_k": "[\"f32\", [\"x\", \"NaN\"], [\"y\"]]"}));
     rep.sample(json!({"value_of_k": inputs[inputs.len() / 3].1}));
     let mut cov = serde_json::Map::new();
-    cov.insert("rule".into(), json!("every value of the C09 file pipeline (token strings, range specs, JSON number classes, JSON shapes, foreign-key forms) plus non-finite / extreme float bounds and literals, in a two-locale project that also holds values reducing to nothing at every nested position (range branch, plural form, component body), plus 16 whole files around plural merging (empty / non-identifier base keys, null / number / group forms) and repeated keys, through the real code generator load_locales() (macro crate sources compiled into this binary) in worker processes; oracle: Ok with tokens that parse as a Rust file (syn), or Err with non-empty message; never a panic or a dead process"));
+    cov.insert("rule".into(), json!("every value of the C09 file pipeline (token strings, range specs, JSON number classes, JSON shapes, foreign-key forms) plus non-finite / extreme float bounds and literals, in a two-locale project that also holds values reducing to nothing at every nested position (range branch, plural form, component body), plus 16 whole files around plural merging (empty / non-identifier base keys, null / number / group forms) and repeated keys, plus every `inherits` map over three non-default locales (nobody / any other locale, loops included) x which of them define a key, through the real code generator load_locales() (macro crate sources compiled into this binary) in worker processes; oracle: Ok with tokens that parse as a Rust file (syn), or Err with non-empty message; never a panic, a dead process or a generator still silent after 30 s (watchdog)"));
     cov.insert("exhaustive".into(), json!(true));
     cov.insert("outcome_classes".into(), json!(*classes.lock().unwrap()));
     let _ = std::fs::remove_dir_all(&root);
